@@ -174,6 +174,33 @@ static void t_iter(void) {
     CHECK(rs_iter_digest(forged) == e && c.next == endn && c.after_end == 1, "iterator-forged", "Rust consumed a C iterator wrongly (next %llu end %llu after_end %d)", (unsigned long long)c.next, (unsigned long long)endn, c.after_end);
 }
 
+/* items that own something: the caller's out slot is output-only. We keep a forged box with a counting
+   release function in the slot whenever it does not hold a live item; nobody may ever call it. */
+static int stale_released;
+static void stale_drop(void *p) { (void)p; stale_released++; }
+static void t_iter_boxes(void) {
+    n_iter++;
+    uint64_t n = below(6);
+    int64_t live0 = rs_tracked_live();
+    void *st = rs_boxiter_new(n); CIterator_box it = rs_boxiter_wrap(st);
+    static unsigned char marker[8];
+    CBox_void out = { marker, stale_drop };
+    stale_released = 0;
+    uint64_t i = 0; int32_t rc;
+    while ((rc = it.func(it.iter, &out)) == 0) {
+        i++;
+        CHECK(out.instance != (void *)marker && out.drop_fn != stale_drop && out.drop_fn != NULL, "iterator-item", "boxed item %llu not written to the out slot", (unsigned long long)i);
+        CHECK(rs_tracked_live() == live0 + 1, "iterator-item", "live boxed items: %lld", (long long)(rs_tracked_live() - live0));
+        out.drop_fn(out.instance);                       /* the C side owns the item and releases it */
+        out.instance = marker; out.drop_fn = stale_drop; /* what is left in the slot is not a value */
+        if (i > 50) break;
+    }
+    CHECK(i == n && rc != 0, "iterator-end", "boxed iterator advanced %llu times for %llu items", (unsigned long long)i, (unsigned long long)n);
+    CHECK(stale_released == 0, "iterator-out-slot-is-output-only", "the next function released the stale contents of the caller's out slot %d times", stale_released);
+    CHECK(rs_tracked_live() == live0 && rs_tracked_double() == 0, "iterator-item", "boxed items leaked or released twice");
+    CHECK(rs_boxiter_free(st) == 0, "iterator-end", "source not exhausted");
+}
+
 static void t_opt_res(void) {
     n_opt++; n_res++;
     uint64_t v = rnd();
@@ -212,7 +239,7 @@ int main(int argc, char **argv) {
     for (long i = 0; i < ops; i++) {
         switch (below(9)) {
         case 0: t_box(); break; case 1: t_arc(); break; case 2: t_slice(); break; case 3: t_vec(); break; case 4: t_callback(); break;
-        case 5: t_iter(); break; case 6: t_opt_res(); break; case 7: t_container(); break; default: t_callback_digest(); break;
+        case 5: t_iter(); t_iter_boxes(); break; case 6: t_opt_res(); break; case 7: t_container(); break; default: t_callback_digest(); break;
         }
     }
     printf("{\"k\":\"sample\",\"what\":\"C16 operation\",\"case\":\"arc: C clones through clone_fn / releases through drop_fn, interleaved with Rust-side clone/drop, strong count checked after every step\"}\n");
